@@ -104,6 +104,7 @@ fn c14_iter_storage() {
 #[kani::stub(std::ffi::OsStr::to_str, stub_osstr_to_str)]
 #[kani::stub(std::io::copy, stub_io_copy)]
 #[kani::stub(crate::internal::path::cfb_uppercase_char, super::uptable::table_upper)]
+#[kani::stub(crate::internal::stream::Stream::minialloc, crate::internal::stream::vacc::stub_upgrade)]
 #[kani::unwind(140)]
 fn c14_stream_ops() {
     let mut p = small_parts(&[1, EOC, EOC], 0, 100, 2, 64);
